@@ -93,6 +93,42 @@ pub fn select<const N: usize, const K: usize>() {
     core::mem::forget(rs);
 }
 
+
+/// Superblock-boundary family: the first P bits are all equal to one symbolic bit b (an all-zero or all-one aligned run,
+/// the case the First/Some superblock markers exist for), the remaining N-P bits are symbolic. All query arguments symbolic.
+#[cfg(kani)]
+pub fn select_run<const N: usize, const P: usize, const K: usize>() {
+    let b: bool = kani::any();
+    let tail: [bool; N] = kani::any();
+    let mut model = [false; N];
+    let mut bits: BitVec<u8> = BitVec::new_fill(false, N as u64);
+    let mut i = 0;
+    while i < N {
+        model[i] = if i < P { b } else { tail[i] };
+        bits.set(i as u64, model[i]);
+        i += 1;
+    }
+    let rs = RankSelect::new(bits, K);
+    let j: u64 = kani::any();
+    kani::assume(j <= N as u64 + 1);
+    let s1 = rs.select_1(j);
+    let s0 = rs.select_0(j);
+    if j == 0 {
+        assert!(s1.is_none() && s0.is_none(), "C17: select(0) must be None");
+    } else {
+        assert!(s1 == select_naive(&model, j, true), "C17: select_1 differs from naive scan");
+        assert!(s0 == select_naive(&model, j, false), "C17: select_0 differs from naive scan (padding bit?)");
+    }
+    let i: u64 = kani::any();
+    kani::assume(i <= N as u64);
+    if (i as usize) < N {
+        assert!(rs.rank_1(i) == Some(count_upto(&model, i as usize, true)), "C17: rank_1 differs from naive count");
+    }
+    kani::cover!(s1 == Some(P as u64 - 1), "last bit of the run selected");
+    kani::cover!(s0 == Some(P as u64), "first bit after the run selected");
+    core::mem::forget(rs);
+}
+
 const SYMS: [u8; 6] = *b"ACGTN$";
 
 /// WaveletMatrix over a text of N symbols from "ACGTN$" (symbolic), symbolic query symbol and position.
@@ -157,3 +193,8 @@ inst!(c17_select_n16_k1, 19, select::<16, 1>());
 inst!(c17_select_n17_k1, 20, select::<17, 1>());
 inst!(c17_select_n24_k1, 27, select::<24, 1>());
 inst!(c17_wavelet_n2, 10, wavelet::<2>());
+inst!(c17_selectrun_n36_p32_k1, 40, select_run::<36, 32, 1>());
+inst!(c17_selectrun_n40_p31_k1, 44, select_run::<40, 31, 1>());
+inst!(c17_selectrun_n40_p33_k1, 44, select_run::<40, 33, 1>());
+inst!(c17_selectrun_n68_p64_k2, 72, select_run::<68, 64, 2>());
+inst!(c17_selectrun_n68_p64_k1, 72, select_run::<68, 64, 1>());
